@@ -540,12 +540,15 @@ func VerifC15ElementReps() {
 			return yaml.MapSlice{{Key: "k", Value: ks[i]}, {Key: "id", Value: i}}
 		case 3:
 			return c15RepDrop{map[string]any{"k": ks[i], "id": i}}
+		case 4:
+			// what yaml.v2 makes of a mapping
+			return map[any]any{"k": ks[i], "id": i}
 		}
 		return map[string]any{"k": ks[i], "id": i}
 	}
 	canon := []any{rec(0, 0), rec(0, 1), rec(0, 2)}
-	r0 := nd.Choice(4)
-	other := []any{rec(r0, 0), rec(nd.Choice(4), 1), rec((r0+1)%4, 2)}
+	r0 := nd.Choice(5)
+	other := []any{rec(r0, 0), rec((r0+2)%5, 1), rec((r0+1)%5, 2)}
 	f := []string{"sort: 'k' | map: 'k' | join: ','", "map: 'k' | join: ','", "sort: 'k' | map: 'id' | join: ','", "map: 'id' | sort | join: ','"}[nd.Choice(4)]
 	v1, e1 := fEval("a | "+f, map[string]any{"a": canon})
 	v2, e2 := fEval("a | "+f, map[string]any{"a": other})
